@@ -16,6 +16,70 @@ ASSUMPTIONS = ['awaiter::resume_chain releases every awaiter of the detached cha
 CUR = 'cocls::signal::state::_cur_val'
 
 
+def _flag_at(tr, idx, path, steps=6):
+    """truth value a bool local holds at position idx of one trace: the constant its latest definition before idx stored (declaration with an
+    initialiser or plain assignment: bool done = false; if (..) { ..; done = true; } return done;), another local it copies, or an
+    expression whose outcome a branch of this path has fixed.  None when not decided (compound assignment, unknown expression)"""
+    neg = False
+    for _ in range(steps):
+        p = path or ''
+        while p.startswith('!(') and p.endswith(')'):
+            p = p[2:-1]; neg = not neg
+        if re.fullmatch(r'!(local|param):\w+(#\d+)?', p):
+            p = p[1:]; neg = not neg
+        if p in ('true', 'false'):
+            return (p == 'true') != neg
+        if not re.fullmatch(r'local:\w+(#\d+)?', p):
+            for it in reversed(tr[:idx]):
+                if it.k == 'branch':
+                    if p == it.get('path'):
+                        return bool(it.val) != neg
+                    if p == it.get('opath'):
+                        return bool(it.get('oval', it.val)) != neg
+                    if p in (it.get('forms') or {}):
+                        return bool(it['forms'][p]) != neg
+            return None
+        j = next((j for j in range(idx - 1, -1, -1) if (tr[j].k == 'decl' and tr[j].get('var') == p) or (tr[j].k == 'write' and tr[j].get('path') == p)), None)
+        if j is None:
+            return None
+        d = tr[j]
+        if d.k == 'write' and (d.get('op') or '=') != '=':
+            return None
+        if isinstance(d.get('const'), (int, bool)):
+            return bool(d['const']) != neg
+        path, idx = (d.get('init') if d.k == 'decl' else d.get('rhs')), j
+        if not path:
+            return None
+    return None
+
+
+def _ret_truth(tr):
+    """truth value the root function returns on this trace: ret_bool (constant / expression decided by a branch), or a flag local that the
+    path has assigned (bool suspended = false; if (s) {...; suspended = true;} return suspended;)"""
+    rv = ret_bool(tr)
+    if rv is not None:
+        return rv
+    v = ret_value(tr)
+    if v is None or v[0] != 'expr':
+        return None
+    d0 = min((it.get('depth', 0) for it in tr if it.k not in ('enter', 'leave', 'abort')), default=0)
+    r = next((i for i in range(len(tr) - 1, -1, -1) if tr[i].k == 'return' and tr[i].get('depth', 0) == d0), None)
+    if r is None:
+        return None
+    t = _flag_at(tr, r, v[1])
+    return None if t is None else (t != bool(v[2]))
+
+
+def _stores_true(it, path):
+    """does trace item `it` set the bool at `path`: x = true; std::exchange(x, true) (the old value is the caller's business); x |= true"""
+    if it.k == 'write' and (it.get('path') or '') == path and (it.get('op') or '=') in ('=', '|=') and (it.get('const') == 1 or (it.get('rhs') or '') == 'true'):
+        return True
+    if it.k == 'call' and norm(it.get('callee') or '') == 'std::exchange':
+        a = it.get('args') or []
+        return len(a) > 1 and (a[0].get('path') or '') == path and (a[1].get('const') == 1 or (a[1].get('path') or '') == 'true')
+    return False
+
+
 def run(ctx, db, tier):
     value_before_notify(ctx, db)
     alive_or_fail(ctx, db)
@@ -113,7 +177,7 @@ def alive_or_fail(ctx, db):
                     if nt and re.match(r'local:\w+|call\(std::weak_ptr::lock\)', nt[0] or ''):
                         alive = bool(nt[1])
             sub = all_indices(tr, callee_is('cocls::awaiter::subscribe'))
-            rv = ret_bool(tr)
+            rv = _ret_truth(tr)
             rv = None if rv is None else int(rv)
             if alive is True:
                 ny += 1
@@ -173,13 +237,52 @@ def alive_or_fail(ctx, db):
         ctx.ob(rid, f, f['key'], bad is None, 'value iff read non-null, else await_canceled_exception' + ('' if not bad else ' -- ' + bad[0]), desc=bad[0] if bad else None)
 
 
+def _heap_awaiter_entries(db):
+    """connect()'s self-owning listener, found by what the code does rather than by its name: the class is what signal::connect allocates
+    with `new` (a class local to connect() or a nested class of signal); its entry points are (first) the members connect() calls on the
+    fresh object - the initial registration - and (later) the members its resume function - the closure or named function the constructor
+    installs - calls on the converted awaiter pointer.  Returns (first, later) as lists of function instances"""
+    first, later = [], []
+    seen = set()
+
+    def add(lst, g):
+        if g is not None and not g.get('lambda') and (id(lst), g['key'], g.get('inst')) not in seen:
+            seen.add((id(lst), g['key'], g.get('inst'))); lst.append(g)
+    for f in db.fns('cocls::signal::connect'):
+        ctors = [db.resolve(f, e['callee_key'], e.get('callee_inst')) for e in f.events() if e.k == 'construct' and e.get('use') == 'arg:new' and e.get('callee_key')]
+        ctors = [c for c in ctors if c is not None]
+        classes = {class_of(db, c) for c in ctors} - {''}
+        if not classes:
+            continue
+        for e in f.events():
+            if e.k == 'call' and e.get('callee_key') and e.get('recv_ev') is not None and f.ev(e['recv_ev']) is not None:
+                o = value_origin(f, f.ev(e['recv_ev']))
+                if o is not None and o.k == 'new':
+                    g = db.resolve(f, e['callee_key'], e.get('callee_inst'))
+                    if g is not None and class_of(db, g) in classes:
+                        add(first, g)
+        for rb in resume_bodies(db, ctors):
+            for e in rb.events():
+                if e.k == 'call' and e.get('callee_key') and e.get('recv'):
+                    g = db.resolve(rb, e['callee_key'], e.get('callee_inst'))
+                    if g is not None and class_of(db, g) in classes and not g.get('static'):
+                        add(later, g)
+    return first, later
+
+
 def self_owning(ctx, db):
     rid = ctx.rule('C15.self-owning', 'COUNT+NO-TOUCH', 'connect()\'s heap awaiter: every path of resume() and initial_reg() performs exactly one of re-subscribe to the chain or delete this, and '
                    'touches nothing of the object afterwards (after re-subscription another thread may already have resumed and deleted it)', floor=2)
-    T = htracer(db, extra=lambda c, e, callee: callee['nname'].endswith('::Awt::resume') and c['nname'].endswith('::initial_reg'))
-    targets = [f for f in db.all_instances() if f['nname'].startswith('cocls::signal::connect') and f['nname'].endswith(('::Awt::resume', '::Awt::initial_reg')) and not f.get('lambda')]
-    if len({t['nname'].split('::')[-1] for t in targets}) < 2:
+    # the members of the awaiter's class they call (a re-subscribe / delete tail, the callback invocation) are expanded as helpers
+    T = htracer(db)
+    first, later = _heap_awaiter_entries(db)
+    if not first or not later:
         raise Broken('connect()::Awt::resume / initial_reg not instantiated')
+    targets = []
+    for g in later + first:
+        if (g['key'], g.get('inst')) not in {(t['key'], t.get('inst')) for t in targets}:
+            targets.append(g)
+    resume_names = {g['nname'] for g in later}
     seen = {}
     for f in targets:
         trs = [t for t in T.traces(f) if live(t)]
@@ -197,7 +300,7 @@ def self_owning(ctx, db):
                 p = it.get('path') or it.get('recv') or ''
                 if it.k in ('read', 'write') and rooted(p, 'this') and p != 'this':
                     bad = bad or ('the awaiter is touched after it was re-subscribed / deleted', tr)
-                if it.k == 'call' and it.get('recv') and rooted(it['recv'], 'this') and norm(it.get('callee') or '').startswith('cocls::') and not norm(it.get('callee') or '').endswith('::Awt::resume'):
+                if it.k == 'call' and it.get('recv') and rooted(it['recv'], 'this') and norm(it.get('callee') or '').startswith('cocls::') and norm(it.get('callee') or '') not in resume_names:
                     bad = bad or ('the awaiter is used after it was re-subscribed / deleted', tr)
         k = (f['key'])
         if k in seen and not bad:
@@ -258,7 +361,7 @@ def hook_up(ctx, db):
                     bad = bad or ('on the already hooked path the answer of the re-registration is not returned: a refused registration (signal disconnected) leaves the coroutine suspended for ever', tr)
             continue
         n += 1
-        w = index_of(tr, lambda ev: ev.k == 'write' and (ev.get('path') or '') == 'this->_hooked' and ev.get('const') == 1)
+        w = index_of(tr, lambda ev: _stores_true(ev, 'this->_hooked'))
         s = index_of(tr, callee_is('cocls::signal::emitter::await_suspend'))
         if w < 0 or w > call:
             bad = bad or ('the emitter is marked hooked only after the registration function ran: a listener resumed meanwhile hooks up a second private signal and loses values', tr)
